@@ -108,6 +108,7 @@ inductive Op
   | update (sid : Bytes) (r : Req)
   | release (sid : Bytes) (r : Req)
   | recharge (info : Bytes)
+  | credit (supi : Bytes) (rg : Nat) (amt : Int)   -- the operator credits the account in the database
 deriving Repr, Inhabited
 
 /-! ### helpers -/
@@ -165,10 +166,13 @@ structure Env where
 
 def subData (supi : Bytes) : Bytes := supi.drop 5
 
+def mkSUR (supi : Bytes) (rg : Int) (reqSub consumed quota : Nat) : Rating.SUR :=
+  { sess := [], subType := 1, subData := subData supi, rg := u32 rg, reqSub := reqSub, consumed := consumed,
+    quota := quota }
+
 /-- `getUnitCost`: a RESERVE service-usage request with quota 0; no answer ⇒ 1 -/
 def getUnitCost (e : Env) (supi : Bytes) (rg : Int) : Nat :=
-  match Rating.handleSUR e.tariffs
-      { sess := [], subType := 1, subData := subData supi, rg := u32 rg, reqSub := 1, consumed := 0, quota := 0 } with
+  match Rating.handleSUR e.tariffs (mkSUR supi rg 1 0 0) with
   | .answer _ d x _ _ => Rating.chfUnitCost d x
   | .noAnswer => 1
 
@@ -179,16 +183,24 @@ structure RgOut where
   st : RgState
   mui : Option Mui
 
+def mkCCR (supi : Bytes) (rg : Int) (st : RgState) (reqType action rsu usu : Nat) : Abmf.CCR :=
+  { sess := [], reqType := reqType, reqNum := st.reqNum % 4294967296, action := action, subType := 1,
+    subData := subData supi, rg := u32 rg, rsu := rsu, usu := usu }
+
 def sendCCR (accts : Abmf.Store) (supi : Bytes) (rg : Int) (st : RgState) (reqType action rsu usu : Nat) :
     Abmf.Store × Abmf.Reply :=
-  Abmf.handleCCR accts
-    { sess := [], reqType := reqType, reqNum := st.reqNum % 4294967296, action := action, subType := 1,
-      subData := subData supi, rg := u32 rg, rsu := rsu, usu := usu }
+  Abmf.handleCCR accts (mkCCR supi rg st reqType action rsu usu)
+
+/-- `uint32(unitUsage.RequestedUnit.TotalVolume)`, 0 when requestedUnit is absent -/
+def reqVolOf (u : Usage) : Nat :=
+  match u.req with
+  | some r => u32 r
+  | none => 0
 
 def reserveBranch (e : Env) (supi : Bytes) (u : Usage) (st : RgState) (used : Nat) : RgOut :=
   let cost1 := getUnitCost e supi u.rg
   let usedQ := (used * cost1) % 4294967296
-  let reqVol := match u.req with | some r => u32 r | none => 0
+  let reqVol := reqVolOf u
   let reqQ := (reqVol * cost1) % 4294967296
   let reserved1 := wrap64 (st.reserved - (usedQ : Int))
   let st1 : RgState := { st with cost := cost1, reserved := reserved1 }
@@ -199,7 +211,7 @@ def reserveBranch (e : Env) (supi : Bytes) (u : Usage) (st : RgState) (used : Na
       match sendCCR e.accts supi u.rg st1 2 0 ask 0 with
       | (_, .noAnswer) => none
       | (a', .answer _ _ _ g f) =>
-        let gi : Nat := match g with | some g => g | none => 0
+        let gi : Nat := g.getD 0
         let st2 : RgState := { st1 with reserved := wrap64 (reserved1 + toI64 gi),
                                         mode := if f then 2 else st1.mode }
         some (a', st2, f)
@@ -209,9 +221,7 @@ def reserveBranch (e : Env) (supi : Bytes) (u : Usage) (st : RgState) (used : Na
   | some (a', st2, fui) =>
     let avail : Nat :=
       if st2.reserved < (reqQ : Int) then (if st2.reserved > 0 then st2.reserved.toNat else 0) else reqQ
-    match Rating.handleSUR e.tariffs
-        { sess := [], subType := 1, subData := subData supi, rg := u32 u.rg, reqSub := 1, consumed := 0,
-          quota := avail % 4294967296 } with
+    match Rating.handleSUR e.tariffs (mkSUR supi u.rg 1 0 (avail % 4294967296)) with
     | .noAnswer => { accts := a', st := st2, mui := none }
     | .answer _ _ _ allowed _ =>
       let cost2 := getUnitCost e supi u.rg
@@ -220,8 +230,7 @@ def reserveBranch (e : Env) (supi : Bytes) (u : Usage) (st : RgState) (used : Na
         mui := some { rg := u.rg, granted := granted, fui := fui } }
 
 def debitBranch (e : Env) (supi : Bytes) (u : Usage) (st : RgState) (used : Nat) : RgOut :=
-  match Rating.handleSUR e.tariffs
-      { sess := [], subType := 1, subData := subData supi, rg := u32 u.rg, reqSub := 2, consumed := used, quota := 0 } with
+  match Rating.handleSUR e.tariffs (mkSUR supi u.rg 2 used 0) with
   | .noAnswer => { accts := e.accts, st := st, mui := none }
   | .answer _ _ _ _ price =>
     if (price : Int) < st.reserved then
@@ -238,14 +247,18 @@ def debitBranch (e : Env) (supi : Bytes) (u : Usage) (st : RgState) (used : Nat)
         { accts := a', st := { st with reserved := 0, reqNum := st.reqNum + 1 },
           mui := some { rg := u.rg, granted := 0, fui := false } }
 
-/-- one usage: group registration, trigger handling, then the reserve or debit branch -/
-def usageStep (e : Env) (supi : Bytes) (trigs : List Nat) (groups : List (Int × RgState)) (u : Usage) :
-    Abmf.Store × List (Int × RgState) × Option Mui :=
+/-- state of the rating group as the usage loop sees it: registered on first sight (reserve mode);
+    FINAL among the request's triggers switches an online rating group to debit mode -/
+def entryState (trigs : List Nat) (groups : List (Int × RgState)) (u : Usage) : RgState :=
   let st0 : RgState := match getRg groups u.rg with
     | some s => s
     | none => {}
-  -- FINAL among the request's triggers switches an online rating group to debit mode
-  let st1 : RgState := if anyOnline u.cs ∧ trigs.any (· = 0) then { st0 with mode := 2 } else st0
+  if anyOnline u.cs ∧ trigs.any (· = 0) then { st0 with mode := 2 } else st0
+
+/-- one usage: group registration, trigger handling, then the reserve or debit branch -/
+def usageStep (e : Env) (supi : Bytes) (trigs : List Nat) (groups : List (Int × RgState)) (u : Usage) :
+    Abmf.Store × List (Int × RgState) × Option Mui :=
+  let st1 := entryState trigs groups u
   if ¬ anyOnline u.cs then (e.accts, setRg groups u.rg st1, none)
   else
     let out := if st1.mode = 1 then reserveBranch e supi u st1 (totalUsed u.cs)
@@ -370,10 +383,24 @@ def recharge (s : State) (info : Bytes) : State × Resp :=
           { status := 204, notif := if ue.notifyUri then [(ue.supi, rg)] else [] }))
   | _ => (s, { status := 400 })
 
+/-- an external credit: the account document's quota is raised in the database (no CHF code involved) -/
+def creditAcct (s : State) (supi : Bytes) (rg : Nat) (amt : Int) : State :=
+  match Abmf.find s.accts supi rg with
+  | some q =>
+    (match q.parse with
+     | some v => { s with accts := Abmf.put s.accts supi rg (.num (v + amt)) }
+     | none => s)
+  | none => s
+
 def step (guard : SplitGuard) (s : State) : Op → State × Resp
   | .create r => create s r
   | .update sid r => update guard s sid r
   | .release sid r => release s sid r
   | .recharge info => recharge s info
+  | .credit supi rg amt => (creditAcct s supi rg amt, { status := 0 })
+
+def run (guard : SplitGuard) (s : State) : List Op → State
+  | [] => s
+  | op :: r => run guard (step guard s op).1 r
 
 end Chf.Charging
